@@ -106,7 +106,9 @@ func sprinkleEmptyNotes(r *rand.Rand, text string, cc byte) string {
 		}
 		if seenHeading && li < len(lines)-1 && r.Intn(5) == 0 {
 			c := string([]byte{cc})
-			note := []string{"  " + c, "\t" + c + " ", "  " + c + c, "- " + c, "    " + c + "  ", " " + c + "\t"}[r.Intn(6)]
+			// ... and lines at column 0 that consist of nothing but quotes, colons, dashes and blanks: they trim to
+			// nothing and are blank lines, the record above goes on below them
+			note := []string{"  " + c, "\t" + c + " ", "  " + c + c, "- " + c, "    " + c + "  ", " " + c + "\t", "\"\":", "\"\"", ":", "\" \":", "---", "\"\": "}[r.Intn(12)]
 			if crlf {
 				note += "\r"
 			}
